@@ -35,7 +35,7 @@ CONFIG = {
 REQUIRED = ['mixed_batches_checked', 'fast_gradient_called_before_predict', 'bolfi_surrogate_order_permuted', 'bolfi_sampling_phases', 'bolfi_second_phase_after_update', 'bolfi_logpdf_points', 'bolfi_fast_predict_checked',
             'bolfi_fast_gradient_checked', 'contract_logpdf', 'contract_predict', 'gps_fitted', 'logpdf_definition_checked', 'logpdf_outside_checked', 'logpdf_on_bound_checked', 'gradient_checked',
             'fastpath_predict_checked', 'fastpath_gradient_checked', 'evidence_order_checked', 'fast_after_update_without_slow_call',
-            'shape_scalar_or_1d', 'shape_2d', 'far_tail_gradient_checked', 'default_threshold', 'gradient_integer_typed_checked']
+            'shape_scalar_or_1d', 'shape_2d', 'far_tail_gradient_checked', 'default_threshold', 'gradient_integer_typed_checked', 'fastpath_noiseless_checked']
 
 
 def gen_cases(ctx):
@@ -106,8 +106,16 @@ def _compare_fast(ctx, gp, x, where):
         else:
             mu, var = gp.predict(x)
             gm, gv = gp.predictive_gradients(x)
+        mu_nl, var_nl = gp.predict(x, noiseless=True)
     finally:
         gp.is_sampling = prev
+    # the noise-free prediction through the accelerated path must be the library's noise-free prediction
+    mu_nl_ref, var_nl_ref = gp._gp.predict_noiseless(x2)
+    ctx.event('fastpath_noiseless_checked')
+    if not np.allclose(np.ravel(var_nl), np.ravel(var_nl_ref), rtol=1e-6, atol=vtol) or \
+            not np.allclose(np.ravel(mu_nl), np.ravel(mu_nl_ref), rtol=1e-7, atol=max(1e-9, 100 * np.finfo(float).eps * cond) * (1 + abs(float(np.ravel(mu_nl_ref)[0])))):
+        raise Violation('fastpath-noiseless', '%s: accelerated predict(noiseless=True) gives mean %r variance %r, library predict_noiseless %r / %r' % (
+            where, np.ravel(mu_nl), np.ravel(var_nl), np.ravel(mu_nl_ref), np.ravel(var_nl_ref)), {'x': x})
     ctx.event('fastpath_predict_checked')
     if not np.allclose(np.ravel(mu), np.ravel(mu_ref), rtol=1e-7, atol=max(1e-9, 100 * np.finfo(float).eps * cond) * (1 + abs(float(np.ravel(mu_ref)[0])))):
         raise Violation('fastpath-mean', '%s: accelerated mean %r, library %r' % (where, np.ravel(mu), np.ravel(mu_ref)), {'x': x})
